@@ -198,6 +198,8 @@ type SackPeer struct {
 	SynAckDelay time.Duration
 	// ExtraFlags are OR-ed into the SYN-ACK's flag byte (e.g. ECE 0x40 for an ECN-setup SYN-ACK)
 	ExtraFlags uint8
+	// BSDOptionOrder: timestamps come BEFORE SACK-permitted in the SYN-ACK (see synAckBytes)
+	BSDOptionOrder bool
 
 	mu       sync.Mutex
 	conns    []net.Conn
@@ -320,6 +322,20 @@ func (p *SackPeer) SynAckBytes(local netip.Addr, lp uint16) []byte {
 
 func (p *SackPeer) synAckBytes(local netip.Addr, lp uint16, isn uint32) []byte {
 	var opts []byte
+	if p.BSDOptionOrder {
+		// the order BSD-derived stacks (macOS, FreeBSD) use: MSS, NOP, window scale, NOP, NOP, timestamps, SACK-permitted, EOL
+		opts = append(opts, wirefmt.OptMSS(1460)...)
+		opts = append(opts, 1)
+		opts = append(opts, wirefmt.OptWS(6)...)
+		opts = append(opts, 1, 1)
+		opts = append(opts, wirefmt.OptTS(p.TSVal, p.TSEcr)...)
+		if p.SackPerm {
+			opts = append(opts, wirefmt.OptSackPerm()...)
+		}
+		opts = append(opts, 0, 0)
+		seg := wirefmt.TCP{SrcPort: p.Addr.Port(), DstPort: lp, Seq: p.ServerISN, Ack: isn, Flags: wirefmt.TCPSyn | wirefmt.TCPAck | p.ExtraFlags, Window: 65535, Options: opts}.Marshal(p.Addr.Addr(), local)
+		return wirefmt.IPv4{TTL: 64, Proto: wirefmt.ProtoTCP, Src: p.Addr.Addr(), Dst: local, Flags: 2}.Marshal(seg)
+	}
 	opts = append(opts, wirefmt.OptMSS(1460)...)
 	if p.SackPerm {
 		opts = append(opts, wirefmt.OptSackPerm()...)
